@@ -24,6 +24,9 @@
 //   EXTRA_OPS 1: an absent key may also be created without a value (phantom) or be added and removed within one cycle;
 //   FMASK bit set of the mapped functions explored: bit 0 inc, 1 running sum, 2 key-consuming, 3 self-scheduling,
 //         4 broadcast argument, 5 late (silent first tick), 6 sampler (timer armed in the node's start hook, PASSIVE element input)
+//   PRE (optional 6th field): PRE further keys are all added in cycle 0 (no choice) and all updated again in the last source
+//         cycle, so with PRE = 8 / 16 the scripted keys are the 9th.. / 17th.. simultaneously held keys and arrive (also) AFTER the
+//         map's first evaluation: the key-slot store grows 8 -> 16 -> 32 under a running map; the old keys tick after the growth
 #ifndef CONFIGS
 #define CONFIGS {3, 0, 3, 0, 10}, {2, 0, 3, 0, 127}, {1, 4, 3, 0, 127}, {2, 0, 3, 1, 99}
 #endif
@@ -32,12 +35,12 @@ using namespace hk;
 
 namespace {
 using U = std::uint64_t;
-struct Cfg { int nkeys, bulk, ncyc, extra, fmask; };
+struct Cfg { int nkeys, bulk, ncyc, extra, fmask, pre; };   // pre: optional 6th field, 0 when omitted
 constexpr Cfg CFGS[] = {CONFIGS};
 constexpr int NCFG = sizeof(CFGS) / sizeof(CFGS[0]);
-constexpr int MAXK = 16;
+constexpr int MAXK = 32;
 Cfg G{};
-int NKEYS = 0, BULK = 0, NK = 0, NCYC = 0;
+int NKEYS = 0, BULK = 0, NB = 0, PRE = 0, NK = 0, NCYC = 0;   // keys: [0,NKEYS) scripted, [NKEYS,NB) bulk, [NB,NK) preloaded
 using Dict = TSD<Int, TS<Int>>;
 enum { A_NONE = 0, A_SET, A_REMOVE, A_READD, A_PHANTOM, A_ADDREMOVE };
 
@@ -73,6 +76,10 @@ bool ok_keys = true, ok_valid = true, ok_value = true, ok_ticks = true, ok_forei
 bool r_removed = false, r_readd = false, r_fresh = false, r_phantom = false, r_three = false, r_five = false, r_wake = false,
      r_wake_dropped = false, r_bcast = false, r_silent = false, r_slot_reuse = false, r_stale_invalid = false, r_start_timer = false;
 bool ever_removed = false;
+// slot-store growth under a running map
+int prev_n_exist = 0;
+bool m_grown[MAXK], was_grown[MAXK];
+bool r_grow9 = false, r_grow17 = false, r_grown_tick = false, r_grown_readd = false, r_old_tick_after_growth = false, r_grown_removed = false;
 bool had_state[MAXK];
 bool m_late[MAXK];        // key is in the late-valid situation (finding M1)
 bool g_src_ticked = false; // the source dictionary ticked in an earlier cycle: the map is primed
@@ -165,13 +172,14 @@ struct DictSrc {
         if (BULK == 0) return;
         bool present = s_present[NKEYS];
         int a = verif_choice("bulk", present ? 3 : 2);
-        if (a == 1) for (int k = NKEYS; k < NK; k++) { do_set(k, out); g_act[k] = A_SET; }
-        if (a == 2) for (int k = NK - 1; k >= NKEYS; k--) { (void)out.erase(Int{k}); s_present[k] = false; g_act[k] = A_REMOVE; }
+        if (a == 1) for (int k = NKEYS; k < NB; k++) { do_set(k, out); g_act[k] = A_SET; }
+        if (a == 2) for (int k = NB - 1; k >= NKEYS; k--) { (void)out.erase(Int{k}); s_present[k] = false; g_act[k] = A_REMOVE; }
     }
     static void eval(NodeScheduler s, State<Int> n, OutT out) {
         Int c = n.get();
         for (int k = 0; k < NKEYS; k++) apply_key(k, out);
         apply_bulk(out);
+        if (PRE > 0 && (c == 0 || c == NCYC - 1)) for (int k = NB; k < NK; k++) { do_set(k, out); g_act[k] = A_SET; }
         n.set(c + 1);
         if (c + 1 < NCYC) s.schedule(MIN_TD);
     }
@@ -313,8 +321,17 @@ struct Checker {
             if (g_act[k] == A_REMOVE) m_late[k] = false;
             const bool late = m_late[k];
             bool removed_now = (g_act[k] == A_REMOVE) && m_inst[k].out_valid;   // a valid element disappears
+            const int act = g_act[k];
+            const bool was = m_inst[k].exists;
             bool wrote = step_instance(k, c);
             const Inst &i = m_inst[k];
+            if (g_src_ticked && prev_n_exist >= 8 && !was && i.exists) {   // instance created while >= 8 keys were held, map already primed
+                if (was_grown[k]) r_grown_readd = true;
+                m_grown[k] = true;
+            }
+            if (m_grown[k] && was && act == A_SET && wrote) r_grown_tick = true;
+            if (m_grown[k] && was && !i.exists) { m_grown[k] = false; was_grown[k] = true; r_grown_removed = true; }
+            if (k >= NB && was && wrote && prev_n_exist > 8) r_old_tick_after_growth = true;
             bool has = bound && m.contains(Int{k});   // concrete: shape only
             bool v = false;
             if (late) {
@@ -345,13 +362,16 @@ struct Checker {
             ok_valid &= (v == i.out_valid);
             if (has && !i.exists) r_stale_invalid = true;
         }
-        if (any_action) g_src_ticked = true;
         int vsz = 0;
         if (bound) for (auto key : m.valid_keys()) { (void)key; vsz++; }
         ok_foreign &= (vsz - n_late_valid_out == n_valid);
         if (any_event) ok_notified &= (g_obs_cycle == c);
         if (n_valid >= 3) r_three = true;
         if (n_valid >= 5) r_five = true;
+        if (g_src_ticked && prev_n_exist <= 8 && n_exist > 8) r_grow9 = true;
+        if (g_src_ticked && prev_n_exist <= 16 && n_exist > 16) r_grow17 = true;
+        prev_n_exist = n_exist;
+        if (any_action) g_src_ticked = true;
         for (int k = 0; k < NK; k++) g_act[k] = A_NONE;
         g_btick = false;
     }
@@ -387,7 +407,7 @@ struct Top {
 extern "C" int harness_main() {
     register_ho_scalars();
     G = CFGS[NCFG > 1 ? verif_choice("cfg", NCFG) : 0];
-    NKEYS = G.nkeys; BULK = G.bulk; NK = NKEYS + BULK; NCYC = G.ncyc;
+    NKEYS = G.nkeys; BULK = G.bulk; NB = NKEYS + BULK; PRE = G.pre; NK = NB + PRE; NCYC = G.ncyc;
     if (NK > MAXK) { verif_fail("C10.harness_configuration"); return 0; }
     {
         int funcs[7], nf = 0;
@@ -418,6 +438,12 @@ extern "C" int harness_main() {
     if (r_silent) verif_reach("live_key_without_valid_output");
     if (r_late_valid) verif_reach("late_valid_key_after_map_primed");
     if (r_start_timer) verif_reach("child_timer_armed_in_start_not_due_at_creation");
+    if (r_grow9) verif_reach("ninth_key_added_after_first_evaluation");
+    if (r_grow17) verif_reach("seventeenth_key_added_after_first_evaluation");
+    if (r_grown_tick) verif_reach("key_added_after_growth_ticks_in_later_cycle");
+    if (r_grown_removed) verif_reach("key_added_after_growth_removed");
+    if (r_grown_readd) verif_reach("key_added_after_growth_removed_and_added_again");
+    if (r_old_tick_after_growth) verif_reach("old_keys_tick_after_growth");
     if (r_stale_invalid) verif_reach("observed_stale_invalid_element_for_absent_key");
     verif_log("obs_runs", g_obs_runs);
     verif_reach("end");
